@@ -127,6 +127,11 @@ func (cr *ChunkReader) Read(p []byte) (int, error) {
 	if cr.checksumHash != nil {
 		cr.checksumHash.Write(p[:n])
 	}
+	if err == io.EOF {
+		// the stream may only end with the final (zero length) chunk,
+		// which is reported from parseAndRemoveChunkInfo
+		return n, io.ErrUnexpectedEOF
+	}
 	return n, err
 }
 
@@ -338,15 +343,14 @@ func (cr *ChunkReader) parseChunkHeaderBytes(header []byte, l *int) (int64, stri
 	rdr := bufio.NewReader(bytes.NewReader(header))
 
 	// After the first chunk each chunk header should start
-	// with "\n\r\n"
-	if !cr.isFirstHeader && stashLen == 0 {
+	// with "\r\n". A stashed partial header still contains it.
+	skip := 0
+	if !cr.isFirstHeader {
 		err := readAndSkip(rdr, '\r', '\n')
 		if err != nil {
 			return cr.handleRdrErr(err, header)
 		}
-
-		copy(header, header[2:])
-		*l = *l - 2
+		skip = 2
 	}
 
 	// read and parse the chunk size
@@ -355,7 +359,7 @@ func (cr *ChunkReader) parseChunkHeaderBytes(header []byte, l *int) (int64, stri
 		return cr.handleRdrErr(err, header)
 	}
 	chunkSize, err := strconv.ParseInt(chunkSizeStr, 16, 64)
-	if err != nil {
+	if err != nil || chunkSize < 0 {
 		return 0, "", 0, errInvalidChunkFormat
 	}
 
@@ -435,7 +439,7 @@ func (cr *ChunkReader) parseChunkHeaderBytes(header []byte, l *int) (int64, stri
 		return cr.handleRdrErr(err, header)
 	}
 
-	ind := bytes.Index(header, []byte{'\r', '\n'})
+	ind := bytes.Index(header[skip:], []byte{'\r', '\n'}) + skip
 	cr.isFirstHeader = false
 
 	return chunkSize, sig, ind + len(chunkHdrDelim) - stashLen, nil
